@@ -32,8 +32,8 @@ class _NeverJson:
     dumps = staticmethod(eio_json.dumps)
 
 
-def _mk(cfl, k, fs):
-    return (ThreadedClientSut if cfl == 0 else AsyncClientSut)(k, fs)
+def _mk(cfl, k, fs, **kw):
+    return (ThreadedClientSut if cfl == 0 else AsyncClientSut)(k, fs, **kw)
 
 
 def _connect(cl, k, fs, ws, upgrade=False):
@@ -332,11 +332,15 @@ def upgrade_conduct(cfl: int, ri: int, early_send: bool, bundled_ping: bool, ws_
     return verdict(untraced(_upgrade_conduct, cfl, ri, early_send, bundled_ping, ws_refused))
 
 
-def _silence(cfl, ws, after_pings, send_first):
+REQUEST_TIMEOUTS = (None, 60, 1)
+
+
+def _silence(cfl, ws, after_pings, send_first, rti=0):
     k = Kernel()
     fs = FakeServer(k)
-    cl = _mk(cfl, k, fs)
-    st = dict(client=cl.flavour, transport='websocket' if ws else 'polling')
+    # (the application may have configured a request_timeout of its own: the bound on silence does not depend on it)
+    cl = _mk(cfl, k, fs, **({} if REQUEST_TIMEOUTS[rti] is None else {'request_timeout': REQUEST_TIMEOUTS[rti]}))
+    st = dict(client=cl.flavour, transport='websocket' if ws else 'polling', request_timeout=REQUEST_TIMEOUTS[rti])
     try:
         _connect(cl, k, fs, ws)
         t0 = k.now
@@ -366,12 +370,12 @@ def _silence(cfl, ws, after_pings, send_first):
 
 
 @cond(quick=dict(timeout=120), thorough=dict(timeout=300))
-def silence_detected(cfl: int, ws: bool, after_pings: int, send_first: bool) -> str:
+def silence_detected(cfl: int, ws: bool, after_pings: int, send_first: bool, rti: int) -> str:
     """
-    pre: 0 <= cfl <= 1 and 0 <= after_pings <= 3
+    pre: 0 <= cfl <= 1 and 0 <= after_pings <= 3 and 0 <= rti < len(REQUEST_TIMEOUTS)
     post: _ == ''
     """
-    return verdict(untraced(_silence, cfl, ws, after_pings, send_first))
+    return verdict(untraced(_silence, cfl, ws, after_pings, send_first, rti))
 
 
 # a real client object built once by the public constructor (outside any symbolic run)
@@ -408,6 +412,63 @@ def url_formatting_table(si: int, hi: int, pi: int, qi: int, ws: bool) -> str:
     post: _ == ''
     """
     return verdict(untraced(_url_table, si, hi, pi, qi, ws))
+
+
+def _request_urls(cfl, qi, ts, mode):
+    """The URLs the client actually requests during a short conversation (handshake, polls, POSTs, WebSocket / upgrade
+    connection), with the default request time-stamping on or off: every one goes to the endpoint, asks for protocol version 4
+    and the transport in use, keeps the caller's query parameters, and (after the handshake) names the session."""
+    import urllib.parse
+    k = Kernel()
+    fs = FakeServer(k)
+    fs.heartbeat = False
+    cl = _mk(cfl, k, fs, timestamp_requests=bool(ts))
+    st = dict(client=cl.flavour, mode=('polling', 'websocket', 'upgraded')[mode], timestamps=bool(ts))
+    try:
+        q = QUERIES[qi]
+        tr = ['websocket'] if mode == 1 else (None if mode == 2 else ['polling'])
+        if mode == 0:
+            fs.upgrades = []
+        h = cl.call('connect', 'http://srv.example/ignored/path' + ('?' + q if q else ''), transports=tr)
+        k.settle()
+        if h.exc is not None or cl.state() != 'connected':
+            return fail(PROP, 'SETUP', 'connect failed: %r' % (h.exc,), **st)
+        cl.call('send', 'x')
+        fs.push('4y')
+        k.settle()
+        k.run(until=k.now + 1)
+        want = urllib.parse.parse_qs(q, keep_blank_values=True)
+        seen = [(m_, u_) for m_, u_, b_, h_ in fs.requests] + [('WS', u_) for u_, l_, h_ in fs.links]
+        if not seen:
+            return fail(PROP, 'URL', 'no request was made', **st)
+        for i, (m_, u_) in enumerate(seen):
+            pr = urllib.parse.urlsplit(u_)
+            got = urllib.parse.parse_qs(pr.query, keep_blank_values=True)
+            exp_scheme = 'ws' if m_ == 'WS' else 'http'
+            exp_tr = 'websocket' if m_ == 'WS' else 'polling'
+            if pr.scheme != exp_scheme or pr.netloc != 'srv.example' or pr.path != '/engine.io/':
+                return fail(PROP, 'URL', '%s request #%d goes to %r' % (m_, i, u_), **st)
+            if (got.get('EIO') or [None])[-1] != '4' or (got.get('transport') or [None])[-1] != exp_tr:
+                return fail(PROP, 'URL', '%s request #%d: %r (EIO / transport)' % (m_, i, u_), **st)
+            for kq, vq in want.items():
+                if (got.get(kq) or [])[:len(vq)] != vq:
+                    return fail(PROP, 'URL-QUERY', '%s request #%d: caller\'s parameter %s=%r became %r in %r' % (m_, i, kq, vq, got.get(kq), u_), **st)
+            first = i == 0 or (m_ == 'WS' and mode == 1)
+            if not first and got.get('sid') != ['sid-1']:
+                return fail(PROP, 'URL-SID', '%s request #%d does not name the session: %r' % (m_, i, u_), **st)
+        return ''
+    finally:
+        cl.close()
+        k.teardown()
+
+
+@cond(quick=dict(timeout=120), thorough=dict(timeout=300))
+def request_urls(cfl: int, qi: int, ts: bool, mode: int) -> str:
+    """
+    pre: 0 <= cfl <= 1 and 0 <= qi < len(QUERIES) and 0 <= mode <= 2
+    post: _ == ''
+    """
+    return verdict(untraced(_request_urls, cfl, qi, ts, mode))
 
 
 def _url_table(si, hi, pi, qi, ws):
